@@ -234,6 +234,7 @@ def run(ch: Choices, opts: Dict[str, Any]) -> Dict[str, Any]:
         return e
 
     def finish(e, out=None, exc=None):
+        sched.progress()
         e["ret"] = sched.points
         e["out"] = out
         e["exc"] = exc
